@@ -180,7 +180,7 @@ type cplProg struct {
 }
 
 // cplGen assembles one random straight-line program with the real Emitter
-func cplGen(r *cpuRng, id int, ms []cplMethod, straightIdx []int, maxlen int) *cplProg {
+func cplGen(r *cpuRng, id int, ms []cplMethod, straightIdx []int, maxlen int, endAt int) *cplProg {
 	p := &cplProg{id: id}
 	nwant := 1 + r.n(maxlen)
 	p.capLen = 4*nwant + r.n(8)
@@ -196,6 +196,9 @@ func cplGen(r *cpuRng, id int, ms []cplMethod, straightIdx []int, maxlen int) *c
 		off = 0
 	case 2:
 		bank = 0
+	}
+	if endAt >= 0 && endAt <= 0x10000 {
+		off = uint32(0x10000 - endAt) // second pass: the program ends exactly at the bank end
 	}
 	base := bank<<16 | off
 	record := func(c cplCall) { p.calls = append(p.calls, c) }
@@ -439,7 +442,13 @@ func cplCmd(args []string) int {
 	methodHits := map[string]int{}
 	for id := 0; id < *nprog; id++ {
 		r := &cpuRng{s: *seed*1000003 + uint64(id)*7919 + 17}
-		p := cplGen(r, id, ms, straightIdx, *maxlen)
+		p := cplGen(r, id, ms, straightIdx, *maxlen, -1)
+		if id%8 == 5 {
+			// same draws, base chosen so that the last byte of the program is the last byte of the bank
+			r2 := &cpuRng{s: *seed*1000003 + uint64(id)*7919 + 17}
+			p = cplGen(r2, id, ms, straightIdx, *maxlen, len(p.bytes))
+			*r = *r2
+		}
 		if *only >= 0 && id != *only {
 			continue
 		}
